@@ -80,19 +80,20 @@ Fixpoint s_json (v : value) (l : vpr) : sres :=
     else s_fault (FKind (Unexpected ("the float " ++ float_display_nonfinite f ++ " is not representable in JSON")) l)
   | VNeg x => s_ok (OJson (if (x <? 0)%Z then VNeg x else VInt (Z.to_N x)))
   | VSeq vs =>
-    (fix go (vs : list value) (i : N) (acc : list sres) : sres :=
-       match vs with
-       | [] => s_collect (rev acc) (fun os => OJson (VSeq (map unjson os)))
-       | x :: r => go r (N.succ i) (s_json x (Index i l) :: acc)
-       end) vs 0%N []
+    s_collect ((fix go (vs : list value) (i : N) : list sres :=
+                  match vs with
+                  | [] => []
+                  | x :: r => s_json x (Index i l) :: go r (N.succ i)
+                  end) vs 0%N)
+              (fun os => OJson (VSeq (map unjson os)))
   | VMap ms =>
-    (fix go (ms : list (string * value)) (keys : list string) (acc : list sres) : sres :=
-       match ms with
-       | [] => s_collect (rev acc)
-                         (fun os => OJson (VMap (fold_left (fun m ko => jmap_insert (fst ko) (unjson (snd ko)) m)
-                                                           (combine (rev keys) os) [])))
-       | (k, x) :: r => go r (k :: keys) (s_json x (Key k l) :: acc)
-       end) ms [] []
+    s_collect ((fix go (ms : list (string * value)) : list sres :=
+                  match ms with
+                  | [] => []
+                  | (k, x) :: r => s_json x (Key k l) :: go r
+                  end) ms)
+              (fun os => OJson (VMap (fold_left (fun m ko => jmap_insert (fst ko) (unjson (snd ko)) m)
+                                                (combine (map fst ms) os) [])))
   | _ => s_ok (OJson v)
   end.
 
@@ -338,4 +339,21 @@ Definition trace_faults (tr : list call) : list fault :=
                      end) tr.
 Definition trace_ucalls (tr : list call) : list (N * list uarg) :=
   flat_map (fun c => match c with CUser f args => [(f, args)] | _ => [] end) tr.
+
+(** the reports held by the error value returned by call [id]: what the final error is built from *)
+Definition own_report (c : call) : list fault :=
+  match c with CError _ _ k l => [FKind k l] | CMergeU _ _ u l => [FUser u l] | _ => [] end.
+
+Fixpoint reports_under (tr : list call) (fuel : nat) (id : N) : list fault :=
+  match fuel with
+  | O => []
+  | S f =>
+    let self_of s := match s with Some x => reports_under tr f x | None => [] end in
+    match nth_opt tr (N.to_nat id) with
+    | Some (CError _ s k l) => FKind k l :: self_of s
+    | Some (CMerge _ s _ o _) => (reports_under tr f o ++ self_of s)%list
+    | Some (CMergeU _ s u l) => FUser u l :: self_of s
+    | _ => []
+    end
+  end.
 
